@@ -335,18 +335,48 @@ def _find_inputs_and_outputs(module_context, context, nodes):
     inputs = []
     outputs = []
     for name in _find_non_global_names(nodes):
+        is_read = True
         if name.is_definition():
             if name not in outputs:
                 outputs.append(name.value)
-        else:
-            if name.value not in inputs:
-                name_definitions = context.goto(name, name.start_pos)
-                if not name_definitions \
-                        or _is_name_input(module_context, name_definitions, first, last):
-                    inputs.append(name.value)
+            # The target of an augmented assignment (`x += 1`) is read as well.
+            is_read = _is_augmented_assignment_target(name)
+        if is_read and name.value not in inputs:
+            name_definitions = context.goto(name, _get_lookup_position(name))
+            if not name_definitions \
+                    or _is_name_input(module_context, name_definitions, first, last):
+                inputs.append(name.value)
 
     # Check if outputs are really needed:
     return inputs, outputs
+
+
+def _get_lookup_position(name):
+    """
+    A name is looked up from the start of its statement (like
+    InferenceState.goto does): in `x = x + 1` and `for x in x:` the target is
+    not bound yet when the right-hand side / the iterable is evaluated.
+    """
+    node = name
+    while node.parent is not None:
+        parent = node.parent
+        if parent.type == 'expr_stmt':
+            return parent.start_pos
+        if parent.type == 'for_stmt' and node is parent.children[3]:
+            return parent.start_pos
+        if parent.type in ('lambdef', 'suite', 'file_input', 'simple_stmt') \
+                or parent.type.endswith('_stmt') or parent.type.endswith('def'):
+            break
+        node = parent
+    return name.start_pos
+
+
+def _is_augmented_assignment_target(name):
+    definition = name.get_definition()
+    if definition is None or definition.type != 'expr_stmt':
+        return False
+    operator = definition.children[1]
+    return operator.type == 'operator' and operator.value != '='
 
 
 def _find_non_global_names(nodes):
